@@ -56,6 +56,7 @@ fn scenario(rng: &mut StdRng, kind: &str, work: &PathBuf, cfg: &MdkConfig) -> (W
     trace.push(w.op_create("c1", g, &[V.to_string(), "c3".to_string()], &admins));
     let mut vops: Vec<Value> = vec![];
     let mut clock = 20u64;
+    let _ = &mut vops;
     let mut others = |w: &mut World, a: Value| -> Value { exec_action(w, &a) };
     // events produced by the other members, in the order the victim will be handed them
     match kind {
@@ -65,6 +66,11 @@ fn scenario(rng: &mut StdRng, kind: &str, work: &PathBuf, cfg: &MdkConfig) -> (W
                 let v = others(&mut w, json!({"op":"Send","c":"c3","g":g,"ts":clock,"rank":0,"mts":clock}));
                 vops.push(json!({"op":"Deliver","c":V,"e":v["e"],"ts":clock,"rank":1}));
             }
+        }
+        "ownmsg" => {
+            // the victim's own application message comes back from the relay
+            vops.push(json!({"op":"Send","c":V,"g":g,"ts":clock + 1,"rank":0,"mts":clock + 1}));
+            vops.push(json!({"op":"DeliverOwnLast","c":V}));
         }
         "send" => {
             vops.push(json!({"op":"Send","c":V,"g":g,"ts":clock + 1,"rank":0,"mts":clock + 1}));
@@ -137,7 +143,17 @@ fn scenario(rng: &mut StdRng, kind: &str, work: &PathBuf, cfg: &MdkConfig) -> (W
     let mut pre_fps: Vec<Value> = vec![];
     let mut post_fps: Vec<Value> = vec![];
     let db = w.clients[V].db_path().unwrap();
-    for (j, op) in vops.clone().iter().enumerate() {
+    for j in 0..vops.len() {
+        // bind "the victim's own last message / pending commit" to the event of the reference run
+        if vops[j]["op"] == json!("DeliverOwnLast") {
+            let last = w.ev_order.iter().rev().find(|n| w.events[*n].author == V && w.events[*n].kind == "app").cloned().unwrap_or_default();
+            vops[j]["e"] = json!(last);
+        }
+        if vops[j]["op"] == json!("DeliverOwnPending") {
+            let pn = w.pending_name.get(&(V.to_string(), "g1".to_string())).cloned().unwrap_or_default();
+            vops[j]["e"] = json!(pn);
+        }
+        let op = &vops[j].clone();
         std::fs::copy(&db, work.join(format!("pre_{j}.db"))).expect("copy db");
         pre_fps.push(fp(&w.project(V, "g1")));
         h2::reset(true, None);
@@ -158,10 +174,10 @@ fn scenario(rng: &mut StdRng, kind: &str, work: &PathBuf, cfg: &MdkConfig) -> (W
 
 fn run_vop(w: &mut World, op: &Value) -> Value {
     match op["op"].as_str().unwrap() {
-        "DeliverOwnPending" => {
-            let pn = w.pending_name.get(&(V.to_string(), "g1".to_string())).cloned().unwrap_or_default();
-            if pn.is_empty() { return json!({"res":"NoPending"}); }
-            exec_action(w, &json!({"op":"Deliver","c":V,"e":pn,"ts":40,"rank":1}))
+        "DeliverOwnLast" | "DeliverOwnPending" => {
+            let e = op["e"].as_str().unwrap_or("").to_string();
+            if e.is_empty() { return json!({"res":"NoEvent"}); }
+            exec_action(w, &json!({"op":"Deliver","c":V,"e":e,"ts":41,"rank":1}))
         }
         "StSnapshot" | "StRelays" | "StRollback" => {
             use mdk_storage_traits::MdkStorageProvider as _;
